@@ -102,7 +102,7 @@ impl Connector {
     }
 }
 
-fn request_bytes(id: u32, body_len: usize, declared: usize) -> Vec<u8> {
+pub fn request_bytes(id: u32, body_len: usize, declared: usize) -> Vec<u8> {
     let mut v = format!(
         "POST /r/{}/f HTTP/1.1\r\nhost: srv.test\r\nx-req-id: {}\r\nx-body-len: {}\r\ncontent-length: {}\r\nconnection: close\r\n\r\n",
         id, id, declared, declared
@@ -113,7 +113,7 @@ fn request_bytes(id: u32, body_len: usize, declared: usize) -> Vec<u8> {
 }
 
 /// Check a raw HTTP/1.1 response produced by `handle` for request `id`.
-fn check_response(raw: &[u8], id: u32, resp_len: usize) -> Result<(), String> {
+pub fn check_response(raw: &[u8], id: u32, resp_len: usize) -> Result<(), String> {
     let pos = raw.windows(4).position(|w| w == b"\r\n\r\n").ok_or_else(|| format!("no complete response head in {} bytes", raw.len()))?;
     let head = String::from_utf8_lossy(&raw[..pos]).to_string();
     let body = &raw[pos + 4..];
@@ -546,9 +546,18 @@ async fn run_duplex_server(
     ctx: HandlerCtx,
     exec: SimExecutor,
 ) -> Result<(), hyperdriver::server::ServerError> {
+    run_acceptor_server(hyperdriver::server::conn::Acceptor::from(incoming), proto, tls, ctx, exec).await
+}
+
+/// The same server as `run_server`, behind hyperdriver's stock `Acceptor` (duplex, TCP or Unix).
+pub async fn run_acceptor_server(
+    acc: hyperdriver::server::conn::Acceptor,
+    proto: ServerProto,
+    tls: Option<Arc<rustls::ServerConfig>>,
+    ctx: HandlerCtx,
+    exec: SimExecutor,
+) -> Result<(), hyperdriver::server::ServerError> {
     use hyperdriver::bridge::rt::TokioExecutor;
-    use hyperdriver::server::conn::Acceptor;
-    let acc: Acceptor = Acceptor::from(incoming);
     let acc = match tls {
         Some(cfg) => acc.with_tls(cfg),
         None => acc,
